@@ -107,10 +107,10 @@ func ZZ_C44_PayloadSignature() {
 		zzsym.Assume(v != q.Version)
 		q.Version = v
 	case 1:
-		i := zzsym.Choose("new.prev.pos", 32)
-		d := zzsym.U8("new.prev.delta")
-		zzsym.Assume(d != 0)
-		q.PrevHash[i] ^= d
+		var v comm.Uint256
+		copy(v[:], zzsym.Bytes("new.prev", 32))
+		zzsym.Assume(v != q.PrevHash)
+		q.PrevHash = v
 	case 2:
 		v := zzsym.U32("new.height")
 		zzsym.Assume(v != q.Height)
